@@ -726,6 +726,40 @@ def run_held(item, col):
     for i in masked:
         by_plate.setdefault(rows[i][1], []).append(i)
     groups = list(by_plate.values())
+    # history on the plates that are observed already: each is recorded once more (same values), round after round; the mask
+    # stays what it was and the fresh views keep splitting the screen by it
+    obs_by_plate = {}
+    for i, r in enumerate(rows):
+        if r[4]:
+            obs_by_plate.setdefault(r[1], []).append(i)
+    if obs_by_plate:
+        screen = make_screen(rows, control=CTL)
+        mask0 = sum(1 << i for i, r in enumerate(rows) if r[4])
+        case = {"held": True, "parent": pname, "recipe": ["re-record"], "fill": []}
+        done = []
+        for rnd in range(n + 1):
+            for pl, idxs in sorted(obs_by_plate.items()):
+                col.transitions += 1
+                screen.set_observed(vec(sum(1 << i for i in idxs), n), np.array([rows[i][3] for i in idxs], dtype=float))
+                done.append(pl)
+                m_now = bits_of(np.asarray(screen.observation_mask, dtype=bool))
+                bad_here = False
+                if m_now != mask0:
+                    col.violation("C14|held|mask-after-repeat", f"parent {pname}: recording the observed plates {done} once more changed the mask to {rows_of_bits(m_now)}", case)
+                    bad_here = True
+                for name, want in (("subset_observed", m_now), ("subset_unobserved", ((1 << n) - 1) & ~m_now)):
+                    f = getattr(screen, name)()
+                    got = 0 if f is None else bits_of(f.selection_vector)
+                    if got != want:
+                        col.violation(f"C14|held|{name}|repeat", f"parent {pname} after the observed plates {done} were recorded once more: {name}() selects {rows_of_bits(got)}, mask says {rows_of_bits(want)}", case)
+                        bad_here = True
+                if bad_here:
+                    break
+            else:
+                continue
+            break
+        col.outcome("held", "re-record", len(done))
+        col.nontriv("held", pname, "re-record")
     for k in range(1, len(groups) + 1):
         for chosen in itertools.combinations(groups, k):
             fill = tuple(sorted(i for g in chosen for i in g))
@@ -760,6 +794,23 @@ def run_held(item, col):
                     got = 0 if f is None else bits_of(f.selection_vector)
                     if got != want:
                         col.violation(f"C14|held|{name}", f"parent {pname} after set_observed(rows {list(fill)}): {name}() selects {rows_of_bits(got)}, mask says {rows_of_bits(want)}", case)
+                # longer history (first recipe only): the same results are recorded again and again (a plate read a second
+                # time; set_observed does not refuse rows that are already observed) - the mask does not change, and the
+                # fresh views still split the screen by the mask the screen itself reports
+                if recipe == recipes[0]:
+                    for rep in range(1, -(-n // len(fill)) + 2):  # often enough that a running count of recorded rows passes n
+                        col.transitions += 1
+                        screen.set_observed(vec(fbits, n), np.array([0.9 - 0.05 * i for i in fill], dtype=float))
+                        m_now = bits_of(np.asarray(screen.observation_mask, dtype=bool))
+                        if m_now != new_mask:
+                            col.violation("C14|held|mask-after-repeat", f"parent {pname}: recording rows {list(fill)} a {rep + 1}. time changed the mask to {rows_of_bits(m_now)}", case)
+                            break
+                        for name, want in (("subset_observed", m_now), ("subset_unobserved", ((1 << n) - 1) & ~m_now)):
+                            f = getattr(screen, name)()
+                            got = 0 if f is None else bits_of(f.selection_vector)
+                            if got != want:
+                                col.violation(f"C14|held|{name}|repeat", f"parent {pname} after set_observed(rows {list(fill)}) was called {rep + 1} times: {name}() selects {rows_of_bits(got)}, mask says {rows_of_bits(want)}", case)
+                    col.outcome("held", "repeat", len(groups))
 
 
 # ------------------------------------------------------------------ sparse probes: many plates, many rows
